@@ -398,7 +398,20 @@ type verifPointerThenValue struct {
 	B verifInnerVP  `json:"b"`
 }
 
-//verif:harness id=C18 tier=quick,thorough witness=end bounds="one struct type used by value and through a pointer in the same type (value first / pointer first in JSON-name order), the pointer nil or set, the int32 member symbolic, with and without component export; and generation that starts from a container of a recursive struct (map[string]T, []T, *T for T recursive through map values and slice elements): the encoding of the value validates against the generated schema and every $ref names a component"
+// ... and the same with a struct type that has no serialised fields (its schema has no content of its own)
+type verifBareVP struct{ hidden int }
+
+type verifBareValueThenPointer struct {
+	A verifBareVP  `json:"a"`
+	B *verifBareVP `json:"b"`
+}
+
+type verifBarePointerThenValue struct {
+	A *verifBareVP `json:"a"`
+	B verifBareVP  `json:"b"`
+}
+
+//verif:harness id=C18 tier=quick,thorough witness=end bounds="one struct type used by value and through a pointer in the same type (value first / pointer first in JSON-name order), the pointer nil or set, the int32 member symbolic, with and without component export; the same with a struct type that has no serialised fields; and generation that starts from a container of a recursive struct (map[string]T, []T, *T for T recursive through map values and slice elements): the encoding of the value validates against the generated schema and every $ref names a component"
 func verifH_C18_value_and_pointer() {
 	verifMapOrder()
 	comps := openapi3.Schemas{}
@@ -417,7 +430,19 @@ func verifH_C18_value_and_pointer() {
 		opts = append(opts, CreateComponentSchemas(ExportComponentSchemasOptions{ExportComponentSchemas: true}))
 	}
 	isValueThenPointer := false
-	switch verifChoose("type", 5) {
+	switch verifChoose("type", 7) {
+	case 5:
+		ref, err = NewSchemaRefForValue(&verifBareValueThenPointer{}, comps, opts...)
+		enc = map[string]any{"a": map[string]any{}, "b": nil}
+		if ptr != nil {
+			enc = map[string]any{"a": map[string]any{}, "b": map[string]any{}}
+		}
+	case 6:
+		ref, err = NewSchemaRefForValue(&verifBarePointerThenValue{}, comps, opts...)
+		enc = map[string]any{"a": nil, "b": map[string]any{}}
+		if ptr != nil {
+			enc = map[string]any{"a": map[string]any{}, "b": map[string]any{}}
+		}
 	case 0:
 		isValueThenPointer = true
 		ref, err = NewSchemaRefForValue(&verifValueThenPointer{}, comps, opts...)
